@@ -127,7 +127,41 @@ func canonResult(o *run.Outcome) string {
 	return sb.String()
 }
 
+// c09Flat: a record through the form / query front ends, with parameters that merely look like paths into nested structs
+// (parent.child, parent[child]) and `key[]` look-alikes next to it: the same request gives the same result on every run.
+func c09Flat(c *core.Ctx) bool {
+	fo := gen.FrontOpts{Flat: true, MaxDepth: 2, MaxFields: 4, KeepIssuePath: true}
+	n := gen.RecordSchema(c.R, fo)
+	rec := gen.GenRecord(c.R, n, 55, fo)
+	for _, f := range []string{"query", "form"} {
+		results := map[string]int{}
+		for rep := 0; rep < 10; rep++ {
+			b := spec.Build(n, &spec.Hooks{FieldOrder: permutedOrder(c.R)})
+			o, _, _ := frontExec(b, n, rec, f, nil, true)
+			c.Eval(1)
+			if o.Panicked {
+				c.Violation("panic|"+f, map[string]any{"schema": n.Source(), "record": obs.Render(rec), "panic": fmt.Sprint(o.Panic)})
+				return false
+			}
+			results[canonResult(o)]++
+		}
+		if len(results) > 1 {
+			var alts []string
+			for r := range results {
+				alts = append(alts, trunc(r, 600))
+			}
+			c.Violation("result-depends-on-order|"+f, map[string]any{"schema": n.Source(), "record": obs.Render(rec), "flat_rendering": gen.RecToFlat(n, rec, frontTag(f)).Encode(), "distinct_results": alts})
+			return false
+		}
+	}
+	c.Count("flat_front_end_records", 1)
+	return true
+}
+
 func (c09) RunCase(c *core.Ctx) {
+	if c.Case%5 == 4 && !c09Flat(c) {
+		return
+	}
 	o := gen.DefaultOpts()
 	o.MaxFields = 5
 	o.CatchPct = 35
